@@ -1823,6 +1823,10 @@ impl<'a, E: quiver_core::effects::Effect> Compiler<'a, E> {
         }
 
         // Register locals for all bindings (indices needed for Load)
+        let binds_whole_value = matches!(
+            pattern,
+            ast::Match::Identifier(_, _) | ast::Match::As(_, _, _)
+        );
         for (variable_name, variable_type) in &bindings {
             let local_index = self.local_count;
             self.local_count += 1;
@@ -1832,10 +1836,11 @@ impl<'a, E: quiver_core::effects::Effect> Compiler<'a, E> {
             scopes::forget_variable(&mut self.scopes, variable_name);
 
             // Register in scope
-            // For simple identifier bindings (single binding), preserve the value's provenance
-            // so tuple field provenance is preserved. For complex patterns (destructuring),
-            // use Unknown since path resolution is complex.
-            let var_provenance = if bindings.len() == 1 {
+            // A binder that stands for the whole value (`=x`, `=('int)x`) preserves the value's
+            // provenance, so tuple field provenance is preserved. A binder inside a destructuring
+            // pattern holds a part of the value - also when it is the pattern's only binder
+            // (`=Cons[_, t]`) - and gets Unknown, since path resolution is complex.
+            let var_provenance = if binds_whole_value {
                 value_provenance.without_variable(variable_name)
             } else {
                 Provenance::Unknown
